@@ -106,7 +106,7 @@ type recWriter struct {
 	writes []int
 	failAt int // fail at the n-th Write call (1-based); 0 = never
 	err    error
-	short  int // when failing: accept this many bytes first (short write)
+	short  int  // when failing: accept this many bytes first (short write)
 	full   bool // when failing: accept ALL bytes of that call and return the error with the full count
 }
 
